@@ -20,7 +20,7 @@ CLAIMED = {
         note='Bounds: quick = pairs <=3 named in total (same star names) + <=2 with star-name variants, triples <=2 total; thorough = pairs K<=3/<=4 total, triples <=3 total.' + TRUST + ' Exec is re-validated against really executed wrappers on every run.',
         ref='4/C02'),
     'C03': dict(
-        text='Real signatures.mask on every signature x num_args (z3 integer 0..len+2) x ordered name tuples x hide flags; z3 decides Accept(mask,(m,kw)) <=> Accept(sig,(n+m,kw+names)) over all call shapes, the ValueError condition, and hide-flag soundness by finite expansion of the hidden arguments; order independence and composition laws compared structurally.',
+        text='Real signatures.mask on every signature x num_args (z3 integer 0..len+2) x ordered name tuples x hide flags; z3 decides Accept(mask,(m,kw)) <=> Accept(sig,(n+m,kw+names)) over all call shapes, the ValueError condition, hide-flag soundness by finite expansion of the hidden arguments, and that hide flags do not turn a returning mask into a raising one (except hide_args + a named positional parameter); order independence and composition laws compared structurally.',
         note='Bounds: quick = K<=2 with <=2 names in every order, K<=3 with <=1 name, 15 hide combinations on K<=2; thorough = K<=3/3 names, K<=4/2 names.' + TRUST,
         ref='4/C03'),
     'C04': dict(
@@ -44,11 +44,11 @@ CLAIMED = {
         note='Bounds: quick = pairs <=2 named in total, merge triples <=2 named, the quick grammar of C05/C06, 21 modules; thorough = <=3 named with triples, thorough grammar, ~120 modules. No call-shape query: assertions on concrete results along solver-enumerated paths.' + TRUST,
         ref='4/C08'),
     'C09': dict(
-        text='Exactness of the real merge on name-aligned role-consistent pairs (two unsat queries per pair over all call shapes, raise <=> no common call), unary/idempotence/neutral-element/round-trip laws on all signatures, fold law on role-consistent triples.',
+        text='Exactness of the real merge on name-aligned role-consistent pairs (two unsat queries per pair over all call shapes, raise <=> no common call), unary/idempotence/neutral-element/round-trip laws on all signatures with and without a return annotation, fold law on role-consistent triples.',
         note='Bounds: quick = pairs K<=2, unary laws K<=3, triples <=2 named in total; thorough = pairs K<=3/<=5 total, unary K<=4, triples <=4 total.' + TRUST,
         ref='4/C09'),
     'C10': dict(
-        text='merge/embed/mask/forwards/partial run on inputs whose default and annotation VALUES are z3 integers; the metadata rules (optional iff all optional, common default else None, agreed annotation else none, kinds only restrict, order, outer-before-inner, outer defaults dropped only before a required inner positional) are asserted on the symbolic values, the equality case splits being made by z3.',
+        text='merge/embed/mask/forwards/partial run on inputs whose default VALUES are None or z3 integers and whose annotation VALUES are z3 integers; the metadata rules (optional iff all optional, common default else None, agreed annotation else none, kinds only restrict, order, outer-before-inner, outer defaults dropped only before a required inner positional) are asserted on the symbolic values, the equality case splits being made by z3.',
         note='Bounds: quick = pairs <=2 named in total (triples <=1 each, no stars), singles K<=2; thorough = pairs <=4/<=3 total, triples <=3.' + TRUST + ' A concrete dry run decides whether the operation raises (error messages format parameters, which would enumerate symbolic values).',
         ref='4/C10'),
     'C11': dict(
@@ -56,7 +56,7 @@ CLAIMED = {
         note='Bounds: quick = functions with <=2 named parameters (<=2 in total for binary operations), no star parameters; thorough = K<=1 with stars, <=3 in total without.' + TRUST,
         ref='4/C11'),
     'C12': dict(
-        text='Every decorator form of modifiers (kwoargs, posoargs, both stacked, start=, end=, autokwoargs) on every function of the universe and every selection: admissibility <=> no ValueError, advertised signature == independently computed rewrite, and the decorated callable (direct and bound) accepts/rejects and routes SYMBOLIC argument values exactly like a native def with that signature (z3 validity).',
+        text='Every decorator form of modifiers (kwoargs, posoargs, both stacked, start=, end=, explicit names together with start= / end=, autokwoargs) on every function of the universe and every selection: admissibility <=> no ValueError, advertised signature == independently computed rewrite, and the decorated callable (direct and bound) accepts/rejects and routes SYMBOLIC argument values exactly like a native def with that signature (z3 validity).',
         note='Bounds: quick = signatures K<=2, direct calls on K<=2 for all kwoargs/posoargs assignments, bound calls on 2-parameter methods for all forms; thorough = K<=3 and 3 positional-or-keyword parameters.' + TRUST,
         ref='4/C12'),
     'C13': dict(
@@ -72,7 +72,7 @@ CLAIMED = {
         note='Bounds: quick = merge pairs <=3 total, embed pairs <=2 total, mask K<=2/1 name/16 hide combinations, forwards <=1 named in total; thorough = larger totals and triples.' + TRUST,
         ref='4/C15'),
     'C16': dict(
-        text='(a) deep identity+content snapshots of all inputs before/after every algebra operation, results share no map/list with inputs; (b) 14 retrieval scenarios x 6 fault types x a SYMBOLIC crash index (unbounded z3 integer): the k-th crossing from sigtools into outside code raises; afterwards every reachable object has exactly its former attributes and the as_forged guard is empty.',
+        text='(a) deep identity+content snapshots of all inputs before/after every algebra operation, results share no map/list with inputs (sort/apply round trip with and without sources handed over); (b) 14 retrieval scenarios x 6 fault types x a SYMBOLIC crash index (unbounded z3 integer): the k-th crossing from sigtools into outside code raises; afterwards every reachable object has exactly its former attributes and the as_forged guard is empty.',
         note='Bounds: (a) pairs <=2 named in total (forwards <=1), singles K<=2; (b) the listed scenarios, one fault per retrieval, crossings intercepted at _util.funcsigs/_util.inspect/_util.ast/bind_partial/user forger/user getter. Asynchronous exceptions are outside the fault model.' + TRUST,
         ref='4/C16'),
     'C18': dict(
@@ -80,7 +80,7 @@ CLAIMED = {
         note='Bounds: quick = functions with <=2 parameters and <=3 applications, histories L<=3, look-up sequences <=2; thorough = 3 parameters, L<=5, look-up sequences <=4.' + TRUST,
         ref='4/C18'),
     'C19': dict(
-        text='Real functools.partial objects over every function of the universe, every count of bound positionals and ordered bound keyword tuples (foreign included), flat or nested, with SYMBOLIC bound values: z3 decides Accept(R,(m,kw)) <=> Accept(f,(cnt+m,kw+bound)) for both retrieval routes, raise <=> uncallable, and the structural clauses (defaults == bound values by z3 validity); discovery through partial(wrapper, callee).',
+        text='Real functools.partial objects over every function of the universe, every count of bound positionals and ordered bound keyword tuples (foreign included), flat or nested, with SYMBOLIC bound values: z3 decides Accept(R,(m,kw)) <=> Accept(f,(cnt+m,kw+bound)) for both retrieval routes, raise <=> uncallable, and the structural clauses (defaults == bound values by z3 validity); discovery through partial(wrapper, callee) where wrapper is a function, a bound method or a classmethod.',
         note='Bounds: quick = K<=2, <=2 bound keywords; thorough = K<=3.' + TRUST,
         ref='4/C19'),
     'C20': dict(
